@@ -300,7 +300,7 @@ fn fill(st: &mut Stats) -> R {
         }
     }
     match c.acquire() {
-        Ok(Err(e)) if e.contains("FullyUsed") => {}
+        Ok(Err(_)) => {}
         other => return Err(fail("C08.exhaustion", "fill/overflow", format!("acquire with all identifiers in use returned {other:?}"))),
     }
     match c.register(7) {
@@ -313,11 +313,17 @@ fn fill(st: &mut Stats) -> R {
             return Err(fail("C08.release_verdict", "fill", format!("release({id}) gave {}", brief_list(&e))));
         }
     }
-    for want in [1u32, 40000, 65535] {
+    // exactly the three released identifiers can be acquired again (in whatever order the manager hands them out)
+    let mut again: BTreeSet<u32> = BTreeSet::new();
+    for _ in 0..3 {
         match c.acquire() {
-            Ok(Ok(id)) if id == want => {}
-            other => return Err(fail("C08.acquire_in_use", "fill/reacquire", format!("expected {want}, got {other:?}"))),
+            Ok(Ok(id)) if [1u32, 40000, 65535].contains(&id) && again.insert(id) => {}
+            other => return Err(fail("C08.acquire_in_use", "fill/reacquire", format!("with only 1, 40000 and 65535 free, acquire returned {other:?} (already re-acquired: {again:?})"))),
         }
+    }
+    match c.acquire() {
+        Ok(Err(_)) => {}
+        other => return Err(fail("C08.exhaustion", "fill/overflow_again", format!("acquire with all identifiers in use again returned {other:?}"))),
     }
     st.nontrivial("fill_u16");
     st.eval();
